@@ -9,7 +9,7 @@ from common import *
 
 # rule category -> property.  EXACT / PANIC / FAIL belong to the property whose scenario family is running;
 # in a restarted run (run > 1) they belong to C05.
-CAT_PROP = {"C13": "C13", "W1": "C13", "FETCH": "C06", "LOST": "C03", "CRASH": "C05", "RUN": "C07"}
+CAT_PROP = {"C13": "C13", "W1": "C13", "FETCH": "C06", "LOST": "C03", "CRASH": "C05", "RUN": "C07", "C16": "C16"}
 
 
 def prop_of(v, family_prop):
@@ -270,6 +270,34 @@ def run_clone_check(prop, tier):
                        "the output scan is given to the L1 code as the scenario's scan set (D4); at L2 the real bita process scans real files built from natural chunks (D7) and what its chunker finds is computed with bita's own chunker",
                        "L2 block devices are regular files behind hook H1"]
     out.finish()
+
+
+def run_l1_sidefiles(tier, out, workdir):
+    """C16 inside the library: the in-place layouts whose re-ordering passes tens to hundreds of MB through the in-memory store (8 MB units), with the
+    harness watching /proc/self/fd while the code under test works on the output (VH_FDWATCH): a temporary or side file, named or not, is an event
+    `side_file` that CloneTrace.tla judges."""
+    os.environ["VH_FDWATCH"] = "1"
+    try:
+        variant = {"unit": 8000000, "comp": "none", "mode": "plain", "every": 75 if tier == "quick" else 25, "max_items": 16}
+        scen, nscen, runs, traces = replay_family("big", tier, variant, workdir)
+    finally:
+        os.environ.pop("VH_FDWATCH", None)
+    verdicts, summary = tlc_validate("CloneTrace", "CloneTrace.cfg", traces)
+    log("family big at 8 MB units under the descriptor watch: %d runs, %d events validated, %d ok, %d verdicts" % (runs, summary["events"], summary["scenarios_ok"], summary["verdicts"]))
+    counts = {}
+    for v in verdicts:
+        p = prop_of(v, "C03")
+        if p == "HARNESS":
+            raise ToolError("harness/model out of sync: %s (trace %s line %d)" % (v["rule"], v["trace"], v["line"]))
+        counts[p + " " + v["rule"]] = counts.get(p + " " + v["rule"], 0) + 1
+        if p != "C16":
+            continue
+        evs = slice_at_line(v["trace"], v["line"])
+        sc = evs[0] if evs else {}
+        out.violation("%s|big" % v["rule"], "%s (family big at 8 MB units, scenario %s: src=%s prior=%s)" % (v["rule"], v["scenario"], sc.get("src"), sc.get("prior")),
+                      {"kind": "clone_l1", "family": "big", "variant": variant, "scenario": {k: sc[k] for k in sc if k not in ("ev", "arch", "hdr")},
+                       "verdict": {k: v[k] for k in ("rule", "scenario", "line", "run")}, "events": [e for e in evs if e.get("ev") in ("scenario", "side_file", "done")][:20]})
+    return runs, summary, counts
 
 
 def run_l1_runs(tier, out, workdir):
